@@ -18,7 +18,7 @@ META = dict(
          "against the same predicates (lead only). The "
          "caller's result class and the Commit/Rollback calls that reached the database driver are compared with "
          "the specification. spec/RowMap.tla enumerates destination shapes (scalars, structs of 1-3 fields, "
-         "tagged/untagged, pointer fields, embedded value/pointer structs, *T, *[]T, *[]*T) x result sets (all "
+         "tagged/untagged, pointer fields, embedded value/pointer structs holding 1 or 2 of the leaf fields, *T, *[]T, *[]*T) x result sets (all "
          "column orders of all column subsets, an extra column, NULL, 0/1/3 rows) x strict/partial with the SET of "
          "outcomes the statement allows; every case is executed by QueryRow(s)(Partial) through a Conn, a "
          "transaction session, a prepared statement and sqlc's NoCache pass-through.",
@@ -39,7 +39,7 @@ FINISH = dict(rule="transactions: complete TLC enumeration (BFS over the history
 
 TX_INV = ["TypeOK", "NilMeansCommitted", "ElseRolledBack", "CommitIffNil", "OneEnding", "NoDangling", "NoTxNoEnd",
           "FailureIsReported"]
-ROW_INV = ["OrderIndependent", "ExtraIgnored", "StrictNeverPartial", "EmptyIsNotFound",
+ROW_INV = ["OrderIndependent", "ExtraIgnored", "StrictNeverPartial", "StrictCountsLeafFields", "EmptyIsNotFound",
            "FieldsComeFromTheirColumns", "NeverEmpty"]
 IMPL_INV = ["NilMeansCommitted", "ElseRolledBack", "FailureIsReported", "NoDangling", "OneEnding"]
 APIS4 = '{"Transact","TransactCtx","CachedTransact","CachedTransactCtx"}'
@@ -107,7 +107,9 @@ def run(ctx):
     cases = ctx.tlc("RowMapGen", cfg, constants=K, name="rowmap", workers=W, timeout=900).printed
     path, n = ctx.write_cases("rowmap.ndjson", cases)
     ctx.samples += core.sample_of(cases, 2)
-    ctx.replay(PKG, OVERLAY, RUN, path, label="rowmap", shards=16, binp=binp)
+    cnt, _ = ctx.replay(PKG, OVERLAY, RUN, path, label="rowmap", shards=16, binp=binp)
+    if not cnt.get("rowmap.strict-fewer-than-leaf-fields"):
+        raise core.Infra("vacuous: no strict case with fewer columns than leaf fields of an embedded struct was replayed")
     ctx.assumptions += [
         "database/sql forwards exactly one driver Commit/Rollback per Tx.Commit/Tx.Rollback (later calls end in ErrTxDone)",
         "fresh sqlx.Conn (fresh breaker) per behaviour; at most 4 Transact calls, so the breaker never rejects"]
